@@ -23,6 +23,7 @@ RULE = ("random pairs of sub-query conditions (depth<=2) over one P and one Q va
         "with a plain condition); sub-query kinds an(entity(x0,c)), an(entity(x1,c)), an(set_of([x0,x1],c)); positions "
         "condition / comparison operand (an and the; the sub-query itself or an attribute of it; as the container of a membership test; also inside the first alternative of a disjunction, also SELECTED by the enclosing query and mentioned only in its later alternative, also correlated with the enclosing query's variable, also over objects with value equality) / predicate-form argument / argument of a @predicate or of a rule's constructor while the enclosing conditions bind the sub-query's variable themselves; caching on and off. Non-trivial: the "
         "oracle result is neither empty nor the whole product. distinct by structural hash.")
+RULE += " Size cases (every tier): an independent sub-query with 40-300 solutions as the operand of an equality (its variable selected) or as a whole condition after a conjunct leaving several rows; 66-80 equal-valued records on the compared side."
 LEVEL_TEXT = ("Reference-model monitoring with a metamorphic twin: the composed query, the query with the sub-query's "
               "conditions written in place, and the plain-Python oracle must agree on the result set (compared by identity).")
 LEVEL_NOTE = "Trusted: oracle + translation (the composed-vs-flattened comparison needs neither). K05 attributed as in C02."
